@@ -144,84 +144,9 @@ def run(cfg):
             if 'startDateTime' in show(a):
                 okn = True
     ob('R1', g.name + ':startDateTime', g.loc, okn, 'startDateTime is not passed through normalizeDateTuple before it is used for look-ups')
-    # ---- R2
-    f = lib.fn(XP + '::getOffsetDateTime')
-    sx_ = SymExec(fold_global=lib.global_value)
-    sx_.trace_locals = {st_.a[0] for st_ in walk_stmts(f.body) if st_.k == 'decl' and st_.a[1] and '*' in st_.a[1]}
-    s = sx_.run(f.name, f.body, {})
-    okp, why = True, ''
-    n = 0
-    for gd, kind, res, eff in s.paths:
-        if kind != 'return' or res is None:
-            continue
-        a = _atom(_P(res))
-        if a is None or a[0] != 'fn':
-            okp, why = False, 'returns %s' % poly_key_str(res)[:120]
-            break
-        if a[1].endswith('OffsetDateTime::forLocalDateTimeAndOffset'):
-            continue        # the error path: returns (ldt, error offset), tested by C09-R4-err
-        n += 1
-        if not a[1].endswith('OffsetDateTime::forEpochSeconds') or len(a[2]) != 2:
-            okp, why = False, 'a non-error path returns %s, not OffsetDateTime::forEpochSeconds(e, o)' % a[1]
-            break
-        e_key = a[2][0]
-        finds = [x for x in _fn_atoms(_P(a[2][1])) if x[1].endswith('::findTransition')]
-        # the offset is read from fields of a local transition pointer: follow that local to the look-up that bound it on
-        # this path (the summariser records the bindings of pointer locals)
-        bound = {}
-        for t_, v_ in eff:
-            if t_.startswith('local:'):
-                bound[t_[6:]] = v_
-        for at_ in _all_syms(_P(a[2][1])):
-            base = at_.split('.')[0]
-            if '.' in at_ and base in bound:
-                finds.extend(x for x in _fn_atoms(_P(bound[base])) if x[1].endswith('::findTransition'))
-        oa = _atom(_P(a[2][1]))
-        if not finds and oa is not None and oa[0] == 'fn' and oa[1].endswith('::forError'):
-            # no transition for that instant: the error offset, on a path whose condition is the failed look-up of the same instant
-            from .gnf import formula_atoms
-            for at in formula_atoms(gd):
-                finds.extend(x for x in _fn_atoms(_P(at[1])) if x[1].endswith('::findTransition') and x[2][-1] == e_key)
-        if not finds or any(x[2][-1] != e_key for x in finds):
-            okp, why = False, 'the offset handed to forEpochSeconds is not the offset of findTransition() for the same epoch seconds'
-            break
-    ob('R2', f.name, f.loc, okp and n >= 1, why or 'no normalising return path found')
-    f = lib.fn(BP + '::getOffsetDateTime')
-    s = SymExec(fold_global=lib.global_value).run(f.name, f.body, {})
-    okp, why = True, ''
-    n = 0
-    for gd, kind, res, eff in s.paths:
-        if kind != 'return' or res is None:
-            continue
-        a = _atom(_P(res))
-        n += 1
-        if a is None or a[0] != 'fn':
-            okp, why = False, 'returns %s' % poly_key_str(res)[:100]
-            break
-        if a[1].endswith('::forError'):
-            continue
-        if a[1].endswith('OffsetDateTime::forLocalDateTimeAndOffset'):
-            # equilibrium: allowed only under offset1 == offset2 (tested on the guard)
-            continue
-        if a[1].endswith('OffsetDateTime::forEpochSeconds') and len(a[2]) == 2:
-            e_key, o_key = a[2]
-            oa = _atom(_P(o_key))
-            if not (oa and oa[0] == 'fn' and oa[1].endswith('::getUtcOffset') and oa[2][-1] == e_key):
-                okp, why = False, 'forEpochSeconds(e, o): o is not getUtcOffset(e) for the same e'
-                break
-            continue
-        okp, why = False, 'returns %s' % a[1]
-        break
-    ob('R2', f.name, f.loc, okp and n >= 3, why or 'fewer return paths than expected')
-    f = lib.fn('ace_time::ZonedDateTime::forComponents')
-    s = SymExec(fold_global=lib.global_value).run(f.name, f.body, {})
-    okp = False
-    for gd, kind, res, eff in s.paths:
-        a = _atom(_P(res)) if res is not None else None
-        if a and a[0] == 'init' and len(a[2]) == 2:
-            o = _atom(_P(a[2][0]))
-            okp = o is not None and o[0] == 'fn' and o[1].endswith('TimeZone::getOffsetDateTime') and _atom(_P(a[2][1])) == ('sym', f.params[-1][0])
-    ob('R2', f.name, f.loc, okp, 'forComponents does not return ZonedDateTime(timeZone.getOffsetDateTime(ldt), timeZone)')
+    # ---- R2: the three entry points interpreted against a model zone (acv/rules_C07b.py)
+    from . import rules_C07b
+    rules_C07b.normalised_rules(R, lib, ob)
     # ---- R3 look-ups, interpreted on abstract pools
     for name, res in lookup_eval(R.cfg, lib).items():
         f, bad, n = res['c']
